@@ -3,6 +3,10 @@
 mod util;
 mod session;
 mod tokens;
+mod stream;
+
+#[global_allocator]
+static GLOBAL: stream::Counting = stream::Counting;
 #[cfg(feature = "hooks")]
 mod handle;
 #[cfg(feature = "hooks")]
@@ -13,6 +17,8 @@ mod utf;
 mod transcode;
 #[cfg(feature = "hooks")]
 mod chunker;
+#[cfg(feature = "hooks")]
+mod mem;
 
 use std::fs::File;
 use std::io::{BufWriter, Write};
@@ -104,6 +110,19 @@ fn main() {
 			let j = serde_json::json!({
 				"cases": st.cases, "kinds": st.kinds, "docs_hist": st.docs_hist, "nontrivial": st.nontrivial,
 				"oracle_failures": st.oracle_failures, "samples": st.samples,
+			});
+			println!("{j}");
+		}
+		#[cfg(feature = "hooks")]
+		"mem" => {
+			let mut cw = BufWriter::new(File::create(format!("{out}/cases.txt")).unwrap());
+			let mut iw = BufWriter::new(File::create(format!("{out}/impl.txt")).unwrap());
+			let st = mem::generate_and_run(seed, &tier, &mut cw, &mut iw);
+			cw.flush().unwrap();
+			iw.flush().unwrap();
+			let j = serde_json::json!({
+				"cases": st.cases, "kinds": st.kinds, "outcomes": st.outcomes, "copies": st.copies, "refusals": st.refusals,
+				"parsers": st.parsers, "nontrivial": st.nontrivial, "samples": st.samples,
 			});
 			println!("{j}");
 		}
